@@ -36,6 +36,9 @@ type lnTrace struct {
 
 const eatN = 6
 
+// the PROXY protocol header "ppfall" connections begin with (v1, UNKNOWN: what follows the keyword is ignored)
+var lnPPHeader = []byte("PROXY UNKNOWN 0123456789ab\r\n")
+
 func lnRoutes() []map[string]any {
 	vhm := func(at int, v, kind string) map[string]any {
 		return map[string]any{"verif_m0": map[string]any{"at": at, "v": v, "w": v, "kind": kind}}
@@ -68,6 +71,9 @@ func lnRoutes() []map[string]any {
 		{"match": []map[string]any{vhm(4, "Y", "sub*")}, "handle": []map[string]any{{"handler": "verif_h", "k": "mark", "l": 1, "r": 8},
 			{"handler": "subroute", "routes": []map[string]any{{"match": []map[string]any{vhm(12, "N", "sub*")}, "handle": []map[string]any{{"handler": "verif_h", "k": "term"}}}}}}},
 		{"match": []map[string]any{vhm(4, "Y", "subterm")}, "handle": []map[string]any{{"handler": "verif_h", "k": "mark", "l": 1, "r": 10}, {"handler": "verif_h", "k": "term", "l": 1, "r": 10}}},
+		// "ppfall": a matched route whose handler is the real proxy_protocol handler (the stream begins with a 28-byte v1
+		// header), then fall-through: the consumer reads the stream from the first byte after the header
+		{"match": []map[string]any{vhm(4, "Y", "ppfall")}, "handle": []map[string]any{{"handler": "verif_h", "k": "mark", "l": 1, "r": 11}, {"handler": "proxy_protocol"}}},
 		// "thrfall": a matched route whose handler is the real throttle handler (generous limits), then fall-through: the
 		// wrapped listener's consumer reads the stream THROUGH the throttled connection, after layer4 has let go of it
 		{"match": []map[string]any{vhm(4, "Y", "thrfall")}, "handle": []map[string]any{{"handler": "verif_h", "k": "mark", "l": 1, "r": 9},
@@ -132,11 +138,17 @@ func runListener(sc lnScen, idx int, seed int64) (*lnTrace, error) {
 		if kind == "wrapfall" && slen < 300 {
 			slen = 300
 		}
+		if kind == "ppfall" && slen < 300 {
+			slen = 300
+		}
 		if kind == "eatlate" && slen < 300 {
 			slen = 300
 		}
 		rec := vh.NewRecorder(vh.MakeStream(seed*1000+int64(idx*16+i), slen+64))
 		rec.Kind, rec.ID, rec.Sink = kind, id, shared
+		if kind == "ppfall" {
+			copy(rec.Stream, lnPPHeader)
+		}
 		if kind == "tlsfall" {
 			if tcpLn == nil {
 				if tcpLn, err = net.Listen("tcp", "127.0.0.1:0"); err != nil {
@@ -211,6 +223,9 @@ func runListener(sc lnScen, idx int, seed int64) (*lnTrace, error) {
 		}
 		if k == "subterm" {
 			k = "term"
+		}
+		if k == "ppfall" {
+			from, k = len(lnPPHeader), "fall"
 		}
 		if k == "fall" && ci.slen < 8 {
 			k = "rej" // the stream ends before the 8 bytes the first route asks for: matching fails
